@@ -309,6 +309,34 @@ func cmdHeap(args []string) {
 		same := h.S == nil && h.P == nil && h.T == nil && ps == nil && pps == nil && es == nil
 		emit(heapObs{Site: "validate-nil-pointers-stay-nil", Mode: "validate", SecondSame: true, ValueChanged: !same, InputSame: true, Note: fmt.Sprint(h.S != nil, h.P != nil, h.T != nil, ps != nil, pps != nil, es != nil)})
 	}
+	// 3g. lists captured by tests keep their order, also when a failing execution prints them in a default message
+	for _, mode := range []string{"parse", "validate"} {
+		so, io := []string{"b", "c", "a"}, []int{3, 1, 2}
+		ss, is := z.String().OneOf(so), z.Int().OneOf(io)
+		for k := 0; k < 2; k++ {
+			d, n := "zz", 9
+			if mode == "parse" {
+				ss.Parse("zz", &d)
+				is.Parse(9, &n)
+			} else {
+				ss.Validate(&d)
+				is.Validate(&n)
+			}
+		}
+		emit(heapObs{Site: "oneof-list-order-" + mode, Mode: mode, SchemaChanged: !reflect.DeepEqual(so, []string{"b", "c", "a"}) || !reflect.DeepEqual(io, []int{3, 1, 2}), SecondSame: true, InputSame: true, Note: fmt.Sprint(so, io)})
+	}
+	// 3h. pointers found in Go-struct input are read, never adopted: the destination gets memory of its own
+	{
+		type inner struct{ A int }
+		type inS struct{ P *inner }
+		src := inS{P: &inner{A: 5}}
+		var dst struct{ P *inner }
+		z.Struct(z.Schema{"P": z.Ptr(z.Struct(z.Schema{"A": z.Int().PostTransform(func(p any, c z.Ctx) error { *(p.(*int)) = 99; return nil })}))}).Parse(src, &dst)
+		top := &inner{A: 5}
+		var dtop *inner
+		z.Ptr(z.Struct(z.Schema{"A": z.Int().PostTransform(func(p any, c z.Ctx) error { *(p.(*int)) = 99; return nil })})).Parse(top, &dtop)
+		emit(heapObs{Site: "input-pointers-not-adopted", Mode: "parse", Shared: (dst.P != nil && dst.P == src.P) || (dtop != nil && dtop == top), SecondSame: true, InputSame: src.P.A == 5 && top.A == 5, Note: fmt.Sprint(src.P.A, top.A)})
+	}
 	// 3d. a destination that is empty but has spare capacity (a reused buffer) gets the default by deep copy as well
 	for _, mode := range []string{"validate"} {
 		def := [][]string{{"a", "b"}, {"c"}}
